@@ -358,6 +358,12 @@ class _KernelTransformer(ast.NodeTransformer):
                     for a in sub.args:
                         if isinstance(a, ast.Name) and a.id not in private:
                             call_args.add(a.id)
+        # every outer array the body can reach is watched for modification (a write through a view such as
+        # `row = work[i]; row[j] = v` has no subscript store on `work` itself)
+        for s_ in body:
+            for sub in ast.walk(s_):
+                if isinstance(sub, ast.Name) and isinstance(sub.ctx, ast.Load) and sub.id not in private and sub.id != var:
+                    call_args.add(sub.id)
         sub_stored &= self.fn_locals
         call_args &= self.fn_locals
         call_args -= sub_stored
